@@ -298,6 +298,15 @@ fn case_direct(t: &mut Tape, ctx: &CaseCtx) -> CaseResult {
                     if !ok {
                         return bad("configured-decision", format!("app {} is configured {kind:?} but answered status {:?} extra {:?}", a.id, u.status, u.extra_attributes));
                     }
+                    // the decision carries this app's own configured payload (codebase and package), not another app's
+                    if matches!(kind, OmahaResponse::Update | OmahaResponse::UrgentUpdate | OmahaResponse::InvalidURL) {
+                        let (want_codebase, want_package) = if round == 1 { ("fuchsia-pkg://mock.test/r/".to_string(), "p".to_string()) } else { (format!("fuchsia-pkg://mock.test/{i}/"), format!("update{i}?hash=00")) };
+                        let got_codebases: Vec<&str> = u.get_all_url_codebases().collect();
+                        let got_packages: Vec<&str> = u.manifest.as_ref().map(|m| m.packages.package.iter().map(|p| p.name.as_str()).collect()).unwrap_or_default();
+                        if (kind != OmahaResponse::InvalidURL && got_codebases != [want_codebase.as_str()]) || got_packages != [want_package.as_str()] {
+                            return bad("configured-payload", format!("app {} is configured with codebase {want_codebase:?} and package {want_package:?} but was answered with {got_codebases:?} / {got_packages:?}", a.id));
+                        }
+                    }
                     if round == 1 && kind == OmahaResponse::Update && u.get_all_url_codebases().next() != Some("fuchsia-pkg://mock.test/r/") {
                         return bad("reconfiguration-ignored", format!("after /set_responses_by_appid app {} still answers with codebase {:?}", a.id, u.get_all_url_codebases().next()));
                     }
